@@ -1233,3 +1233,158 @@ Print Assumptions c06_invariant_nonvacuous.
 Print Assumptions c06_model_judged_ok_nonvacuous.
 Print Assumptions judge_gap_embs.
 Print Assumptions judge_gap_deep_wrapper.
+
+(* ================================================================ 6. spec_convs is sound *)
+(* [spec_convs]: per cell, the foreign errors converted ALONG ITS CHAIN (history alone).  The
+   model keeps every one of them matching: CloneBase hands the receiver's srcError and
+   laterSrcErrors on, whatever method follows. *)
+Record cinv (fs : list val) (st : store) (convs : list (list nat)) : Prop := mkCV {
+  cv_len : length convs = length st;
+  cv_match : forall a c k t p u, nth_error st a = Some c -> In k (nth a convs []) ->
+             nth k fs VNil = VF t true p u -> conv_match (c_g c) (VF t true p u) = true }.
+
+(* whatever is recorded keeps matching after any further CloneBase *)
+Lemma conv_match_keeps s l x e :
+  serr_match s e || existsb (fun y => serr_match y e) l = true ->
+  serr_match (serr_after s x) e || existsb (fun y => serr_match y e) (later_after s l x) = true.
+Proof.
+  unfold serr_after, later_after. intros H. destruct (is_nil s) eqn:Ns; simpl.
+  - destruct s; try discriminate. simpl in H.
+    destruct (negb (is_nil x)); simpl; [rewrite H; apply orb_true_r|exact H].
+  - destruct (negb (is_nil x)); [rewrite existsb_app|];
+      apply orb_true_iff in H as [H|H]; rewrite H; simpl; rewrite ?orb_true_r; reflexivity.
+Qed.
+
+Lemma nth_map_nil {A} (l : list A) : forall a, nth a (map (fun _ => @nil nat) l) [] = [].
+Proof. induction l as [|x l IH]; intros [|a]; simpl; auto. Qed.
+
+Lemma cinv_init roots fs : cinv fs (map root_cell_of roots) (map (fun _ => []) roots).
+Proof.
+  split.
+  - rewrite !map_length. reflexivity.
+  - intros a c k t p u _ Hin. rewrite nth_map_nil in Hin. destruct Hin.
+Qed.
+
+Lemma convs_invariant fs : fs_vf fs = true -> forall ops st convs st' res,
+  cinv fs st convs -> ops_adm_at st fs ops ->
+  run_ops ext_wiring st fs ops = Some (st', res) ->
+  cinv fs st' (spec_convs convs ops).
+Proof.
+  intros V. induction ops as [|[o|i] rest IH]; intros st convs st' res H A R.
+  - simpl in R |- *. injection R as <- _. exact H.
+  - simpl in A. destruct A as [[i [Rc Gv]] [Adm Anext]].
+    cbn [run_ops] in R. cbn [spec_convs]. rewrite Rc.
+    pose proof (is_gerr_resolve st fs (o_err o) V) as Ig.
+    change (match ref_cell (o_err o) with Some _ => true | None => false end)
+      with (is_some (ref_cell (o_err o))).
+    destruct (gv_cell _ _ _ Gv) as [ci [Ei _]].
+    destruct (is_convert (o_m o) && is_some (ref_cell (o_err o))) eqn:Gd.
+    + apply andb_true_iff in Gd as [Cm Sj].
+      assert (Ge : is_gerr_val (a_err (op_args st fs o)) = true) by (simpl; rewrite Ig; exact Sj).
+      assert (Gw : w_guard (wt_of ext_wiring (resolve st fs (o_recv o)) (o_m o)) = true)
+        by (rewrite wt_guard; exact Cm).
+      rewrite (call_convert_idem ext_wiring st _ (o_m o) (op_args st fs o) i Gv Gw Ge) in R, Anext.
+      destruct (as_gerror (a_err (op_args st fs o))); [|discriminate].
+      destruct (run_ops ext_wiring st fs rest) as [[st2 ks]|] eqn:R2; [|discriminate].
+      injection R as <- _. exact (IH st convs st2 ks H Anext R2).
+    + assert (Gd' : is_convert (o_m o) && is_gerr_val (a_err (op_args st fs o)) = false)
+        by (simpl; rewrite Ig; exact Gd).
+      destruct (call ext_wiring st (resolve st fs (o_recv o)) (o_m o) (op_args st fs o))
+        as [[st1 v1]|] eqn:C; [|discriminate].
+      destruct (call_fresh st _ _ _ st1 v1 i ci Gv Ei Gd' C) as [c' [-> [Ar [_ [Hs [Hl _]]]]]].
+      rewrite Ar in R.
+      destruct (run_ops ext_wiring (st ++ [c']) fs rest) as [[st2 ks]|] eqn:R2; [|discriminate].
+      injection R as <- _.
+      refine (IH _ _ st2 ks _ Anext R2).
+      destruct H as [HL HM]. split.
+      * rewrite !app_length, HL. reflexivity.
+      * intros a c k t p u Ea Hin Hn. apply nth_error_snoc_inv in Ea as [[La Ea]|[-> ->]].
+        -- rewrite app_nth1 in Hin by (rewrite HL; exact La). exact (HM a c k t p u Ea Hin Hn).
+        -- rewrite app_nth2 in Hin by (rewrite HL; lia). rewrite HL, Nat.sub_diag in Hin.
+           simpl nth in Hin.
+           assert (Hk : In k (nth i convs []) \/ (is_convert (o_m o) = true /\ o_err o = RF k)).
+           { destruct (is_convert (o_m o)); [|left; exact Hin].
+             destruct (o_err o); try (left; exact Hin).
+             apply in_app_iff in Hin as [Hin|[<-|[]]]; [left; exact Hin|right; auto]. }
+           unfold conv_match. rewrite Hs, Hl.
+           destruct Hk as [Hk|[Cm Eo]].
+           ++ apply conv_match_keeps. exact (HM i ci k t p u Ei Hk Hn).
+           ++ rewrite Cm. simpl a_err. rewrite Eo. simpl resolve. rewrite Hn.
+              exact (conv_after_comparable (g_serr (c_g ci)) (g_later (c_g ci)) t p u).
+  - simpl in A. destruct A as [Li Anext]. cbn [run_ops] in R. cbn [spec_convs].
+    destruct (nth_error st i) as [c0|] eqn:E0; [|discriminate].
+    destruct (run_ops ext_wiring (set_isfac st i) fs rest) as [[st2 ks]|] eqn:R2; [|discriminate].
+    injection R as <- _. refine (IH _ _ st2 ks _ Anext R2).
+    destruct H as [HL HM]. split.
+    + rewrite length_set_isfac. exact HL.
+    + intros a c k t p u Ea Hin Hn. rewrite nth_error_set_isfac in Ea.
+      destruct (Nat.eqb a i).
+      * destruct (nth_error st a) as [ca|] eqn:Ea0; [|discriminate]. simpl in Ea. injection Ea as <-.
+        exact (HM a ca k t p u Ea0 Hin Hn).
+      * exact (HM a c k t p u Ea Hin Hn).
+Qed.
+
+Theorem spec_convs_sound : forall roots fs ops st res,
+  roots_ok roots = true -> fs_vf fs = true -> ops_adm roots fs ops = true ->
+  run_ops ext_wiring (map root_cell_of roots) fs ops = Some (st, res) ->
+  let convs := spec_convs (map (fun _ => []) roots) ops in
+  length convs = length st /\
+  forall a k t p u, a < length st -> In k (nth a convs []) -> nth k fs VNil = VF t true p u ->
+    errors_is st (val_of st a) (VF t true p u) = Ok true.
+Proof.
+  intros roots fs ops st res R V A Run convs.
+  assert (A' : ops_adm_at (map root_cell_of roots) fs ops).
+  { apply (ops_admb_sound fs V). rewrite kinds0_st0. exact A. }
+  destruct (convs_invariant fs V ops _ _ st res (cinv_init roots fs) A' Run) as [HL HM].
+  destruct (spec_ops (infos0 0 roots) ops) as [infos exp] eqn:Sp.
+  destruct (c06_invariant roots fs ops st res infos exp R V A Run Sp) as [H _].
+  pose proof (hinv_wf _ _ _ _ H) as W.
+  split; [exact HL|].
+  intros a k t p u La Hin Hn.
+  destruct (nth_error st a) as [c|] eqn:Ea; [|apply nth_error_None in Ea; lia].
+  rewrite (errors_is_gf st W (val_of st a) a c t true p u (gv_val_of st a c Ea) Ea).
+  f_equal. exact (HM a c k t p u Ea Hin Hn).
+Qed.
+
+(* the same with the target written as the case's own foreign value *)
+Corollary spec_convs_sound_comparable roots fs ops st res a k :
+  roots_ok roots = true -> fs_vf fs = true -> ops_adm roots fs ops = true ->
+  run_ops ext_wiring (map root_cell_of roots) fs ops = Some (st, res) ->
+  a < length st -> k < length fs ->
+  In k (nth a (spec_convs (map (fun _ => []) roots) ops) []) ->
+  comparable (nth k fs VNil) = true ->
+  errors_is st (val_of st a) (nth k fs VNil) = Ok true.
+Proof.
+  intros R V A Run La Lk Hin Cm.
+  destruct (nth_fs_vf fs k V) as [E|[t [c [p [u E]]]]].
+  - exfalso. unfold fs_vf in V. rewrite forallb_forall in V.
+    specialize (V (nth k fs VNil) (nth_In _ _ Lk)). rewrite E in V. discriminate.
+  - rewrite E in Cm |- *. simpl in Cm. subst c.
+    exact (proj2 (spec_convs_sound roots fs ops st res R V A Run) a k t p u La Hin E).
+Qed.
+
+(* non-vacuity: one factory, three Converts of three different comparable foreign errors in a
+   row, then Base() on the third result: the Base result still matches all three *)
+Definition cv_roots : list c06_root := [ mkRoot [70%N] [] [] true None ].
+Definition cv_fs : list val := [ VF 1 true 7 VNil; VF 1 true 8 VNil; VF 6 true 9 VNil ].
+Definition cv_ops : list hstep :=
+  [ ex_op (RC 0) MConvert (RF 0) 0; ex_op (RC 1) MConvert (RF 1) 1;
+    ex_op (RC 2) MConvertS (RF 2) 2; ex_op (RC 3) MBase RNil 3 ].
+
+Example spec_convs_nonvacuous :
+  roots_ok cv_roots = true /\ fs_vf cv_fs = true /\ ops_adm cv_roots cv_fs cv_ops = true
+  /\ spec_convs (map (fun _ => []) cv_roots) cv_ops = [[]; [0]; [0; 1]; [0; 1; 2]; [0; 1; 2]]
+  /\ match run_ops ext_wiring (map root_cell_of cv_roots) cv_fs cv_ops with
+     | Some (st, res) =>
+         res = [1; 2; 3; 4]
+         /\ errors_is st (val_of st 4) (nth 0 cv_fs VNil) = Ok true
+         /\ errors_is st (val_of st 4) (nth 1 cv_fs VNil) = Ok true
+         /\ errors_is st (val_of st 4) (nth 2 cv_fs VNil) = Ok true
+         /\ errors_is st (val_of st 2) (nth 2 cv_fs VNil) = Ok false
+     | None => False
+     end.
+Proof. vm_compute. repeat split; reflexivity. Qed.
+
+Print Assumptions spec_convs_sound.
+Print Assumptions spec_convs_sound_comparable.
+Print Assumptions spec_convs_nonvacuous.
